@@ -327,7 +327,7 @@ def run_check(prop: str, tier: str, spec: dict) -> int:
     with cf.ProcessPoolExecutor(max_workers=min(workers, max(1, len(jobs))), mp_context=ctx, initializer=_worker_init, initargs=(True,)) as pool:
         futs = {pool.submit(run_job, j): j for j in jobs}
         try:
-            for fut in cf.as_completed(futs, timeout=budget + 300):
+            for fut in cf.as_completed(futs, timeout=2 * budget + 600):   # generous: a loaded machine stretches compiles, and a timeout is a broken run
                 j = futs[fut]
                 try:
                     out = fut.result()
